@@ -297,10 +297,12 @@ class Degrees:
             return a
         if a == POLY and b == POLY:
             return POLY
+        # a degree-polymorphic factor (zero vector, tolerance) times a dimensionless one (rotation, cosine) is still polymorphic:
+        # R . zeros(3) is a zero vector, not a dimensionless quantity
         if a == POLY:
-            return b
+            return POLY if b == Fraction(0) else b
         if b == POLY:
-            return a
+            return POLY if a == Fraction(0) else a
         if _is_deg(a) and _is_deg(b):
             return a + b
         return None
